@@ -82,7 +82,8 @@ impl<T: Ord> MemoryBoundedQueue<T> {
 
     /// Push an item to the queue with its size
     ///
-    /// **BLOCKS** if adding this item would exceed capacity.
+    /// **BLOCKS** if adding this item would exceed capacity (an item larger than the capacity itself
+    /// waits until the queue holds no bytes).
     /// Returns error if queue is closed.
     ///
     /// # Arguments
@@ -101,8 +102,13 @@ impl<T: Ord> MemoryBoundedQueue<T> {
         std::point("q.push", size_bytes as i64, 0);
         let mut inner = self.inner.lock().unwrap();
 
-        // Wait while queue would be too full
-        while inner.current_size + size_bytes > self.capacity_bytes && !inner.closed {
+        // Wait while queue would be too full. An item that is larger than the whole capacity can
+        // never "fit": it is admitted once the queue holds no bytes (otherwise push would block
+        // forever, and with it the whole pipeline, e.g. a contig larger than --queue-capacity).
+        while inner.current_size + size_bytes > self.capacity_bytes
+            && inner.current_size > 0
+            && !inner.closed
+        {
             #[cfg(ragc_verif_sched)]
             std::qevent("q.wait_not_full", size_bytes as i64, inner.current_size as i64);
             inner = self.not_full.wait(inner).unwrap();
